@@ -71,6 +71,12 @@ fn bound1(proto: &Proto) -> Vec<Variation> {
     // the raw-split query (a &mut self call) made by both parties before the first message and after every
     // handshake call: each answer is the reference Split() of that moment and nothing later changes
     out.push(Variation { tag: "raw-split-everywhere", ..d.clone() });
+    // rekeys in the middle of the transport traffic, in every mode: automatic (both directions, synchronised) and
+    // manual through each entry point; the messages after them must be the specification's under REKEY(k) / the
+    // installed keys, at the unchanged nonces
+    for m in [Mode::TT, Mode::SS, Mode::TS, Mode::ST] {
+        out.push(Variation { mode: m, tag: "rekeys", ..d.clone() });
+    }
     out
 }
 
@@ -98,6 +104,23 @@ fn ops_of(proto: &Proto, v: &Variation) -> Vec<Op> {
             }
         }
         ops = with;
+    }
+    if v.tag == "rekeys" {
+        // the 8 transport messages are 16 ops at the end: rekeys after the 2nd, 4th and 6th message
+        let t0 = ops.len() - 2 * v.t_plens.len().min(8).min(if proto.pattern.is_oneway() { dirs.iter().take(v.t_plens.len().min(8)).filter(|s| **s == Side::I).count() } else { 8 });
+        let groups: [Vec<Op>; 3] = [
+            vec![Op::RekeyOut { side: Side::I }, Op::RekeyIn { side: Side::R }, Op::RekeyOut { side: Side::R }, Op::RekeyIn { side: Side::I }],
+            vec![Op::RekeyManual { side: Side::I, i: Some(1), r: Some(2) }, Op::RekeyManual { side: Side::R, i: Some(1), r: Some(2) }],
+            vec![Op::RekeyInitManual { side: Side::I, k: 3 }, Op::RekeyInitManual { side: Side::R, k: 3 }, Op::RekeyRespManual { side: Side::R, k: 4 }, Op::RekeyRespManual { side: Side::I, k: 4 }, Op::RekeyIn { side: Side::R }, Op::RekeyOut { side: Side::I }],
+        ];
+        for (g, grp) in groups.iter().enumerate().rev() {
+            let at = t0 + 4 * (g + 1);
+            if at <= ops.len() {
+                for (j, o) in grp.iter().enumerate() {
+                    ops.insert(at + j, o.clone());
+                }
+            }
+        }
     }
     if let Some(k) = v.fault_at {
         use crate::exec::{Alter, Cap, Msg};
